@@ -78,8 +78,13 @@ fn tag_level(ctx: &mut Ctx, arena: &Arena, kind: u16, img: &[u8]) {
 fn header_level(ctx: &mut Ctx, arena: &Arena, h: &[u8]) {
     let len = rd32(h, 8) as usize;
     for right in [true, false] {
-        ctx.under_fills("c09/o5/header", |ctx, fill| {
-            let p = arena.put(h, right, fill);
+        // flush-left: fills A and B, and a well-formed continuation of the tag chain behind the declared length
+        ctx.under_variants("c09/o5/header", if right { 2 } else { 3 }, |ctx, variant| {
+            let p = arena.put(h, right, if variant == 1 { arena::FILL_B } else { arena::FILL_A });
+            if variant == 2 && len % 8 == 0 && len + 40 <= arena.len() {
+                // [console flags tag (4, 0, 12)][end tag] behind the header, wherever the declared length ends
+                arena.place_at(len, &[4, 0, 0, 0, 12, 0, 0, 0, 3, 0, 0, 0, 0, 0, 0, 0, 0, 0, 0, 0, 8, 0, 0, 0]);
+            }
             let hd_ = match ctx.call("load", || unsafe { Multiboot2Header::load(p as *const Multiboot2BasicHeader) }) {
                 Out::Val(Ok(x)) => x,
                 Out::Val(Err(_)) => {
@@ -174,7 +179,7 @@ fn run(ctx: &mut Ctx) {
             });
         }
     }
-    ctx.bound("header_level", format!("headers [deviating tag][neighbour][end] and [neighbour][deviating tag][end] for every tag size above and two neighbours, both architectures{}; headers [neighbour][tag claiming 0..=extent+41 bytes without being extended][end or nothing]; header length word 0..=len+17 + EDGE32 (checksum recomputed, physical region as large as declared); program = load, the four words, the 10 getters with batteries, iter() walk, forwards and in reverse order", if quick { "" } else { "; all ordered triples of conformant tags with one deviating size" }));
+    ctx.bound("header_level", format!("headers [deviating tag][neighbour][end] and [neighbour][deviating tag][end] for every tag size above and two neighbours, both architectures{}; headers [neighbour][tag claiming 0..=extent+41 bytes without being extended][end or nothing]; header length word 0..=len+17 + EDGE32 (checksum recomputed, physical region as large as declared); flush-left additionally with a well-formed continuation of the tag chain behind the declared length; program = load, the four words, the 10 getters with batteries, iter() walk, forwards and in reverse order", if quick { "" } else { "; all ordered triples of conformant tags with one deviating size" }));
     let neighbours = [hd::sample(hd::ADDRESS, 5, 0), hd::sample(hd::INFO_REQ, 5, 2)];
     for (kind, img) in &bases {
         let cap = img.len() + 17;
